@@ -50,6 +50,7 @@ inductive Node where
   | field (s : FieldSig)
   | input (a : Arg)
   | enumv (s : String)
+  | directive (d : DirectiveDef)
   deriving Repr, Inhabited
 
 def optArr {α} (f : α → Json) : Option (List α) → Json
@@ -78,6 +79,7 @@ def evalHead (v : View) (tag arg : String) (k : Node → List (String × Json)) 
       (match v.subscriptionType with
        | some m => .obj (k (.ty (.named m)))
        | none => .null)
+    else if tag == "directives" then .arr (v.directivesListing.map fun d => .obj (k (.directive d)))
     else .null
   | .ty (.named p) =>
     if tag == "name" then .str p
@@ -111,6 +113,10 @@ def evalHead (v : View) (tag arg : String) (k : Node → List (String × Json)) 
     else .null
   | .enumv e =>
     if tag == "name" then .str e else .null
+  | .directive d =>
+    if tag == "name" then .str d.name
+    else if tag == "args" then .arr (d.args.map fun a => .obj (k (.input a)))
+    else .null
 
 /-- The introspection resolvers applied to a selection tree on the object `n`. -/
 def evalSels (v : View) : Sels → Node → List (String × Json)
@@ -161,6 +167,14 @@ def walk (v : View) : Option String → Sels → List Event
        | none => []
      else if tag == "group" then walk v parent sub          -- inline fragment without type condition
      else []) ++ walk v parent rest
+
+/-- The validator's checks on one directive application `@dn(args…)` as far as they depend on the
+    schema: `undefined directive`, and one `undefined argument` per argument name the definition does
+    not have (validate_arguments.go:15-44). -/
+def directiveCheck (v : View) (dn : String) (argNames : List String) : List String :=
+  match v.directiveArgs dn with
+  | none => ["undefined directive"]
+  | some defs => (argNames.filter (fun a => !(defs.map (·.name)).contains a)).map (fun a => "undefined argument " ++ a)
 
 /-- Every type condition of the tree is known to the feature-aware lookup (what validation
     guarantees before execution starts). -/
